@@ -674,3 +674,40 @@ V("c10-silent-rule4-commuted", "C10", "silent", UT, "    Ks = pa_j & n_i\n", "  
 V("c10-silent-rule4-inline-adj", "C10", "silent", UT, "                if h not in adj_j:\n", "                if h not in adj(j, A):\n", what="adjacency set inlined")
 RN("C10", UT, "rule_3")
 RN("C10", UT, "rule_4")
+
+# ------------------------------------------------------------------------------- equivalent spellings (silent): found by trying them, several needed engine work
+V("sp-c01-identity", "C01", "silent", LG, "A = np.linalg.inv(np.eye(self.p) - W.T)", "A = np.linalg.inv(np.identity(self.p) - W.T)", what="np.identity")
+V("sp-c01-transpose-fn", "C01", "silent", LG, "A = np.linalg.inv(np.eye(self.p) - W.T)", "A = np.linalg.inv(np.eye(self.p) - np.transpose(W))", what="np.transpose")
+V("sp-c01-transpose-method", "C01", "silent", LG, "        covariance = A @ np.diag(variances) @ A.T\n", "        covariance = A @ np.diag(variances) @ A.transpose()\n", what=".transpose()")
+V("sp-c01-dot", "C01", "silent", LG, "        mean = A @ means\n", "        mean = A.dot(means)\n", what=".dot")
+V("sp-c01-npdot", "C01", "silent", LG, "        mean = A @ means\n", "        mean = np.dot(A, means)\n", what="np.dot")
+V("sp-c01-matmul", "C01", "silent", LG, "        covariance = A @ np.diag(variances) @ A.T\n", "        covariance = np.matmul(np.matmul(A, np.diag(variances)), A.T)\n", what="np.matmul")
+V("sp-c01-scaled-columns", "C01", "silent", LG, "        covariance = A @ np.diag(variances) @ A.T\n", "        covariance = (A * variances) @ A.T\n", what="A * v broadcasts over columns = A diag(v)")
+V("sp-c01-local-p", "C01", "silent", LG, "        A = np.linalg.inv(np.eye(self.p) - W.T)\n", "        p = self.p\n        A = np.linalg.inv(np.eye(p) - W.T)\n", what="local alias of self.p")
+V("sp-c01-len-w", "C01", "silent", LG, "        A = np.linalg.inv(np.eye(self.p) - W.T)\n", "        A = np.linalg.inv(np.eye(len(W)) - W.T)\n", what="len(W) for self.p")
+V("sp-c01-is-not-none", "C01", "silent", LG, "        if shift_interventions:\n", "        if shift_interventions is not None and len(shift_interventions) > 0:\n", what="explicit emptiness test")
+V("sp-c01-early-return", "C01", "silent", LG, "        if not population:\n            return distribution.sample(n, random_state=random_state)\n        else:\n            return distribution\n", "        if population:\n            return distribution\n        return distribution.sample(n, random_state=random_state)\n", what="early return")
+V("sp-c04-early-return", "C04", "silent", LG, "        if not population:\n            return distribution.sample(n, random_state=random_state)\n        else:\n            return distribution\n", "        if population:\n            return distribution\n        return distribution.sample(n, random_state=random_state)\n", what="early return")
+V("sp-c01-astype-float64", "C01", "silent", LG, "        variances = self.variances.astype(float)\n        means = self.means.astype(float)\n", "        variances = self.variances.astype(np.float64)\n        means = self.means.astype(np.float64)\n", what="np.float64")
+V("sp-c01-array-dtype", "C01", "silent", LG, "        variances = self.variances.astype(float)\n        means = self.means.astype(float)\n", "        variances = np.array(self.variances, dtype=float)\n        means = np.array(self.means, dtype=float)\n", what="np.array(.., dtype=float) copies")
+V("sp-c03-pattern-where", "C03", "silent", UT, "    A = (A != 0).astype(int)\n    # Check that there are no undirected edges", "    A = np.where(A != 0, 1, 0)\n    # Check that there are no undirected edges", what="np.where pattern")
+V("sp-c03-pattern-int64", "C03", "silent", UT, "    A = (A != 0).astype(int)\n    # Check that there are no undirected edges", "    A = (A != 0).astype(np.int64)\n    # Check that there are no undirected edges", what="astype(np.int64)")
+V("sp-c03-pattern-bool-sum", "C03", "silent", UT, "    A = (A != 0).astype(int)\n    # Check that there are no undirected edges", "    A = (np.abs(A) > 0).astype(int)\n    # Check that there are no undirected edges", what="|a| > 0")
+V("sp-c03-raise-no-else", "C03", "silent", UT, "    if A.sum() > 0:\n        raise ValueError(\"The given graph is not a DAG\")\n    else:\n        return ordering", "    if A.sum() > 0:\n        raise ValueError(\"The given graph is not a DAG\")\n    return ordering", what="no else after raise")
+V("sp-c03-any-leftover", "C03", "silent", UT, "    if A.sum() > 0:\n        raise ValueError(\"The given graph is not a DAG\")\n    else:\n        return ordering", "    if A.any():\n        raise ValueError(\"The given graph is not a DAG\")\n    return ordering", what=".any() on the 0/1 pattern")
+V("sp-c17-dictcomp", "C17", "silent", UT, "    folds = dict((i, []) for i in range(n_folds))\n", "    folds = {i: [] for i in range(n_folds)}\n", what="dict comprehension")
+V("sp-c17-aug-expanded", "C17", "silent", UT, "                start += fold_size\n", "                start = start + fold_size\n", what="x = x + y")
+V("sp-c17-listcomp-return", "C17", "silent", UT, "    return list(folds.values())\n", "    return [folds[i] for i in range(n_folds)]\n", what="explicit list")
+V("sp-c17-isclose-math", "C17", "silent", UT, "    if abs(np.sum(ratios) - 1) > 1e-9:", "    if np.abs(np.sum(ratios) - 1.0) > 1e-9:", what="np.abs / 1.0")
+V("sp-c13-from-import-rng", "C13", "silent", UT, "import numpy as np\n", "import numpy as np\nfrom numpy.random import default_rng\n", more=[(UT, "    rng = np.random.default_rng(random_state)\n    for sample in data:", "    rng = default_rng(random_state)\n    for sample in data:")], what="from-import of default_rng")
+V("sp-c17-from-import-rng", "C17", "silent", UT, "import numpy as np\n", "import numpy as np\nfrom numpy.random import default_rng\n", more=[(UT, "    rng = np.random.default_rng(random_state)\n    for sample in data:", "    rng = default_rng(random_state)\n    for sample in data:")], what="from-import of default_rng")
+V("sp-c19-if-verbose", "C19", "silent", SE, "            print(\"Fitting distributional random forests\") if verbose else None\n", "            if verbose:\n                print(\"Fitting distributional random forests\")\n", what="if-statement for conditional print")
+V("sp-c08-aug-expanded", "C08", "silent", UT, "        ordered[x, y] = i\n        i += 1\n", "        ordered[x, y] = i\n        i = i + 1\n", what="x = x + 1")
+V("sp-c15-truthy-set", "C15", "silent", UT, "    if len(pa(i, A)) > 0 and not pa(i, A) <= adj(j, A):", "    if pa(i, A) and not pa(i, A) <= adj(j, A):", what="set truthiness")
+V("sp-c05-set-isdisjoint", "C05", "silent", ND, "        if len(set(Y) & set(X)) > 0:\n", "        if not set(Y).isdisjoint(X):\n", what="isdisjoint")
+V("sp-c05-truthy-intersection", "C05", "silent", ND, "        if len(set(Y) & set(X)) > 0:\n", "        if set(Y) & set(X):\n", what="truthiness of the intersection")
+V("sp-c05-size-ne", "C05", "silent", ND, "        if len(X) != len(x):\n", "        if not len(X) == len(x):\n", what="not ==")
+V("sp-c05-shape", "C05", "silent", ND, "        if len(X) != len(x):\n", "        if X.shape[0] != x.shape[0]:\n", what="shape[0]")
+V("sp-c12-fstring-error", "C12", "silent", GE, "import numpy as np\n", "import numpy as np\n_UNUSED_MESSAGE_PREFIX = 'sempler: '\n", what="module constant added")
+V("sp-c05-mask-overlap", "C05", "silent", ND, "        if len(set(Y) & set(X)) > 0:\n            raise ValueError(\"X and Y are not disjoint.\")\n", "        in_X = np.zeros(len(self.mean), dtype=bool)\n        in_X[X] = True\n        if in_X[Y].any():\n            raise ValueError(\"X and Y are not disjoint.\")\n", what="membership mask for the overlap test")
+V("sp-c01-scaled-rows-wrong", "C01", "fire", LG, "        covariance = A @ np.diag(variances) @ A.T\n", "        covariance = (A.T * variances) @ A\n", rule="FORMULA.covariance", what="A^T diag(v) A instead of A diag(v) A^T")
